@@ -152,6 +152,58 @@ func scenarioConfigs() []*config {
 			Operators: []operatorSpec{{Name: "op", Stage: 1, Calls: []string{"list"}}},
 		},
 		{
+			Name: "S13-stale-report-resend", Props: core,
+			Doc:         "two different actions queued for one worker; after its first completion report the worker may re-send that request verbatim (lost response), report completion or progress for its previous task, also after it was told to go idle",
+			Predeclared: pre0, MaxTicks: 2,
+			Clients: []clientSpec{{Name: "c1", Calls: []string{"exec A i1"}}, {Name: "c2", Calls: []string{"exec B i2"}}},
+			Workers: []workerSpec{{Name: "w1", MaxCalls: 4, Busy: []string{"ok", "resend", "okprev", "execprev"}, Idle: []string{"idle", "resend", "okprev"}}},
+		},
+		{
+			Name: "S13b-stale-report-after-kill", Props: []string{"C01", "C02", "C06", "C07"},
+			Doc:         "as S13, but the worker's first task may be killed by an operator while the worker runs it: the worker learns about its next task from a progress report and may then still report completion of the killed one",
+			Predeclared: pre0, MaxTicks: 3, Bounds: b1,
+			Clients:   []clientSpec{{Name: "c1", Calls: []string{"exec A i1"}}, {Name: "c2", Calls: []string{"exec B i2"}}},
+			Workers:   []workerSpec{{Name: "w1", MaxCalls: 4, Busy: []string{"sleep1", "exec", "okprev", "resend", "ok"}}},
+			Operators: []operatorSpec{{Name: "op", Calls: []string{"kill c1.0"}}},
+		},
+		{
+			Name: "S14-staggered-departure-reattach", Props: core,
+			Doc:         "two invocations share one task; both clients may leave at different times; the second re-attaches with WaitExecution one tick after it left (possibly exactly when the first client's operation expires); the worker arrives at any idle moment",
+			Predeclared: pre0, MaxTicks: 3,
+			Clients: []clientSpec{
+				{Name: "c1", Calls: []string{"exec A i1"}, Cancels: 1},
+				{Name: "c2", Calls: []string{"exec A i2", "sleep 1", "wait c2.0"}, Cancels: 1},
+			},
+			Workers: []workerSpec{{Name: "w1", Stage: 1, MaxCalls: 2, Busy: []string{"ok"}}},
+		},
+		{
+			Name: "S14b-staggered-departure-executing", Props: []string{"C01", "C02", "C03", "C06"},
+			Doc:         "as S14, but a slow worker holds the task while the clients leave one after the other and the second one re-attaches",
+			Predeclared: pre0, MaxTicks: 3, WorkerTimeout: 5, Bounds: b1,
+			Clients: []clientSpec{
+				{Name: "c1", Calls: []string{"exec A i1"}, Cancels: 1},
+				{Name: "c2", Calls: []string{"exec A i2", "sleep 1", "wait c2.0"}, Cancels: 1},
+			},
+			Workers: []workerSpec{{Name: "w1", MaxCalls: 2, Busy: []string{"sleep3", "ok"}}},
+		},
+		{
+			Name: "S15-queued-abandon-nested-invocations", Props: []string{"C01", "C03", "C06", "C07"},
+			Doc:         "predeclared queue, two invocations with different correlated-invocations keys (depth-2 invocation trees) deduplicated onto one task that stays queued; either client may leave and have its operation expire while the other still waits; the worker arrives at any idle moment or never",
+			Predeclared: pre0, MaxTicks: 4,
+			Clients: []clientSpec{
+				{Name: "c1", Calls: []string{"exec A i1 corrA"}, Cancels: 1},
+				{Name: "c2", Calls: []string{"exec A i2 corrB"}, Cancels: 1},
+			},
+			Workers: []workerSpec{{Name: "w1", Stage: 1, MaxCalls: 2, Busy: []string{"ok"}}},
+		},
+		{
+			Name: "S16-long-poll-handover", Props: []string{"C01", "C02", "C06"},
+			Doc:         "an idle worker long-polls for up to 5 ticks; a task is handed to it after 0..5 ticks; the worker then works for 2 ticks (or reports progress) before it completes; worker timeout 3",
+			Predeclared: pre0, MaxTicks: 5, IdleSync: 5,
+			Workers: []workerSpec{{Name: "w1", MaxCalls: 3, Busy: []string{"sleep2", "ok", "exec"}}},
+			Clients: []clientSpec{{Name: "c1", Stage: 1, Calls: []string{"exec A i1"}}},
+		},
+		{
 			Name: "S12-crash-points", Props: []string{"C01", "C02", "C06", "C07"},
 			Doc:      "worker-created queue; client, worker and operator may each stop for good at any point (cancellation, or simply never calling again) while the clock runs through all timeouts",
 			MaxTicks: 5, IdleSync: 2,
